@@ -125,7 +125,7 @@ pub fn run_fuzz(prop: &dyn Property, seed: u64, threads: usize, scale: f64) -> O
     let workers = threads.max(1);
     let total: u64 = ((cfg.cases as f64) * scale * 2.0) as u64;
     let per = (total / workers as u64).max(1000);
-    let cap_s: u64 = std::env::var("VERIF_FUZZ_MAX_S").ok().and_then(|v| v.parse().ok()).unwrap_or(900);
+    let cap_s: u64 = std::env::var("VERIF_FUZZ_MAX_S").ok().and_then(|v| v.parse().ok()).unwrap_or(300);
     let status = std::process::Command::new(&bin)
         .current_dir(&work)
         .env("VERIF_OUT", out_dir())
@@ -173,6 +173,11 @@ pub fn run_fuzz(prop: &dyn Property, seed: u64, threads: usize, scale: f64) -> O
     }
     crash.sort();
     let final_files = std::fs::read_dir(&corpus).map(|r| r.count()).unwrap_or(0);
+    // the working corpus is scratch: only artifacts are kept
+    let _ = std::fs::remove_dir_all(&corpus);
+    if crash.is_empty() && other == 0 {
+        let _ = std::fs::remove_dir_all(&work);
+    }
     Some(FuzzReport {
         execs,
         requested: per * workers as u64,
